@@ -155,9 +155,37 @@ fn gen_name(rng: &mut Rng, n: usize) -> String {
     s
 }
 
+/// A conforming NUL-terminated name that LOOKS like a QuickTime counted (Pascal) string: its
+/// first byte equals the number of bytes that follow it. ISO files are free to contain such a
+/// name; a reader that special-cases counted strings must still return it unchanged. The
+/// first character is ASCII, or a two-byte character (first byte 0xC2..=0xDF).
+pub fn counted_looking_name(rng: &mut Rng) -> String {
+    let mut s = String::new();
+    let rest = if rng.bool() {
+        let c = *rng.pick(&[b'!', b'0', b'A', b'a', b'~', b' ']);
+        s.push(c as char);
+        c as usize
+    } else {
+        // U+00C0..U+07FF encode as two bytes, the first of which is 0xC3..=0xDF
+        let first = 0xC3 + rng.below(0x1D) as u32;
+        let ch = char::from_u32(((first & 0x1F) << 6) | (0x80 + rng.below(0x40) as u32 & 0x3F)).unwrap_or('\u{e9}');
+        s.push(ch);
+        first as usize
+    };
+    // `rest` more bytes after the first byte
+    let already = s.len() - 1;
+    for _ in 0..rest.saturating_sub(already) {
+        s.push(*rng.pick(&['n', 'a', 'M', 'e', ' ', '7']));
+    }
+    s
+}
+
 pub fn gen_hdlr(rng: &mut Rng, shape: usize) -> Case<HdlrBox> {
     let n = [0usize, 1, 5, 31, 300][shape % 5];
-    let name = gen_name(rng, n);
+    let mut name = gen_name(rng, n);
+    if n >= 31 && rng.chance(1, 3) {
+        name = counted_looking_name(rng);
+    }
     let f = HdlrF { version: rng.biased_u8(), flags: rng.biased(24) as u32, handler: rnd4(rng), name: name.as_bytes().to_vec() };
     Case {
         shape: format!("hdlr name{}", name.len().min(32)),
@@ -443,7 +471,12 @@ pub fn gen_avcc(rng: &mut Rng, shape: usize) -> Case<AvcCBox> {
     let np = [0usize, 1, 3, 255][(shape / 4) % 4];
     let nal = |rng: &mut Rng| -> Vec<u8> {
         let l = *rng.pick(&[0usize, 1, 4, 30, 300]);
-        rng.bytes(l)
+        let mut v = rng.bytes(l);
+        if l >= 4 {
+            // sometimes in Annex B form (start code in front): still just bytes to the box
+            crate::muxdrive::annex_b(rng, &mut v, 0x67);
+        }
+        v
     };
     let mut f = AvcCF { version: rng.biased_u8(), profile: rng.biased_u8(), compat: rng.biased_u8(), level: rng.biased_u8(), length_size_minus_one: rng.below(4) as u8, sps: (0..ns).map(|_| nal(rng)).collect(), pps: (0..np).map(|_| nal(rng)).collect() };
     if scale() {
@@ -838,7 +871,10 @@ pub fn gen_meta(rng: &mut Rng, shape: usize) -> Case<MetaBox> {
             let mut data = Vec::new();
             let mut kids = vec![enc_hdlr(&hf)];
             for _ in 0..n {
-                let mut t = rnd4(rng);
+                // half of the children carry a type that exists elsewhere in the format (a reader
+                // that gives one of them a meaning of its own, e.g. an extended header for
+                // `uuid`, must still hand it back untouched here); the rest are random codes
+                let mut t = if rng.bool() { *rng.pick(&[*b"uuid", *b"free", *b"skip", *b"wide", *b"keys", *b"xml ", *b"iloc", *b"iinf", *b"pitm", *b"idat", *b"iref", *b"ID32"]) } else { rnd4(rng) };
                 if &t == b"hdlr" {
                     t = *b"keys";
                 }
